@@ -1,6 +1,7 @@
 mod checks;
 mod common;
 mod gen;
+mod machine;
 mod nn;
 mod ops;
 mod prog;
@@ -78,12 +79,15 @@ fn main() {
         "C05" => checks::c05::explore(&opts),
         "C06" => checks::c06::explore(&opts),
         "C07" => checks::c07::explore(&opts),
+        "C08" => checks::c08::explore(&opts),
         "C09" => checks::c09::explore(&opts),
+        "C10" => checks::c10::explore(&opts),
         "C11" => checks::c11::explore(&opts),
         "C13" => checks::c13::explore(&opts),
         "C15" => checks::c15::explore(&opts),
         "C16" => checks::c16::explore(&opts),
         "C17" => checks::c17::explore(&opts),
+        "C18" => checks::c18::explore(&opts),
         _ => usage(),
     };
     let mut fin = Finish::new(&opts, start, ex.local);
